@@ -12,8 +12,6 @@ Arguments HOk {R A}. Arguments HEof {R A}. Arguments HErr {R A}. Arguments HPani
 
 Section Hand.
   Variable R : Type.
-  Variable r_pos : R -> res Z.
-  Variable r_len : R -> Z.
   Variable r_readbyte : R -> rres R byte.
   Variable r_readbuf : R -> Z -> rres R bytes.
 
@@ -188,13 +186,13 @@ Qed.
 
 Theorem name_from_bytes_total b : good (name_from_bytes b).
 Proof.
-  unfold name_from_bytes.
-  pose proof (h_tlnum_total br br_readbyte b_RI b_rem b_spec_readbyte (br_of b) I) as H1.
-  destruct (h_tlnum br br_readbyte (br_of b)) as [t r1|r1|r1|w|]; cbn in H1 |- *; try contradiction; try discriminate.
-  destruct (negb (t =? 7)); [cbn; discriminate|].
-  pose proof (h_tlnum_total br br_readbyte b_RI b_rem b_spec_readbyte r1 I) as H2.
-  destruct (h_tlnum br br_readbyte r1) as [l r2|r2|r2|w|]; cbn in H2 |- *; try contradiction; try discriminate.
+  unfold name_from_bytes, good.
+  pose proof (h_tlnum_total br br_readbyte br_readbuf b_RI b_rem b_spec_readbyte b_spec_readbuf (br_of b) I) as H1.
+  destruct (h_tlnum br br_readbyte (br_of b)) as [t r1|r1|r1|w|]; cbn [hspec] in H1; try contradiction; try discriminate.
+  destruct (negb (t =? 7)); [discriminate|].
+  pose proof (h_tlnum_total br br_readbyte br_readbuf b_RI b_rem b_spec_readbyte b_spec_readbuf r1 I) as H2.
+  destruct (h_tlnum br br_readbyte r1) as [l r2|r2|r2|w|]; cbn [hspec] in H2; try contradiction; try discriminate.
   pose proof (b_read_name_total r2) as H3.
-  destruct (b_read_name r2) as [n r3|r3|r3|w|]; cbn in H3 |- *; try contradiction; try discriminate.
-  destruct (to_int l =? br_len r3 - br_pos r2)%Z; cbn; auto; discriminate.
+  destruct (b_read_name r2) as [n r3|r3|r3|w|]; try contradiction; try discriminate.
+  destruct (to_int l =? br_len r3 - br_pos r2)%Z; [exact I|discriminate].
 Qed.
